@@ -38,7 +38,8 @@ def getCollectionValue(collection, what):
     elif collection.isMap() and what == "keys":
         return sorted(collection.value.keys())
     elif collection.isMap() and what == "values":
-        return sorted(collection.value.values())
+        # in the order of the keys, as a for loop over the values visits them
+        return [collection.value[k] for k in sorted(collection.value.keys())]
     elif collection.isMap():
         return convertEntries({k: collection.value[k]
                                for k in sorted(collection.value.keys())})
